@@ -428,20 +428,7 @@ fn mech_narrow(tbl: &Tbl, op: &str, a: usize, b: usize) -> Option<&'static str> 
         Some(Type::Tuple(t)) => tbl.tuples.get(*t),
         _ => None,
     };
-    if op == "complement" {
-        // (i) cyclic tuples of the same name and arity whose labels differ: subtract_one skips the
-        // is_compatible / types_overlap shortcuts and its structural difference never looks at labels
-        for &x in &ta {
-            for &y in &tb {
-                if let (Some(ia), Some(ib)) = (info(x), info(y)) {
-                    let labels = |t: &quiver_core::types::TupleTypeInfo| t.fields.iter().map(|f| f.0.clone()).collect::<Vec<_>>();
-                    if ia.name == ib.name && ia.fields.len() == ib.fields.len() && labels(ia) != labels(ib) && (reach_has_cycle(tbl, &[x]) || reach_has_cycle(tbl, &[y])) {
-                        return Some("subtract=cyclic-tuple-difference-ignores-labels");
-                    }
-                }
-            }
-        }
-    }
+    // (i) labels ignored by the structural tuple difference: repaired by e0ad7de (regression corpus)
     // (v) the operation rebuilds a tuple around a narrowed cyclic union: the `^` of the variants kept
     // inside re-bind to the narrowed union, and a union narrowed to one variant loses its boundary
     for &x in &ta {
@@ -465,10 +452,7 @@ fn mech_narrow(tbl: &Tbl, op: &str, a: usize, b: usize) -> Option<&'static str> 
         return Some("union=flatten-changes-cycle-depth");
     }
     if op == "complement" {
-        // (iii) contains_cycle does not look into callable / process types
-        if ra.iter().chain(rb.iter()).any(|i| matches!(tbl.kind(*i), "fn" | "process") && reach_has_cycle(tbl, &[*i])) {
-            return Some("subtract=contains-cycle-ignores-callable-process");
-        }
+        // (iii) contains_cycle ignoring callable / process children: repaired by 9604765
         // (ii) an id with free cycles (a bare `^`, or a variant containing one) is reachable from
         // both operands and subtracted as "the same type" (`a == b => []`) although its cycles
         // point into two different unions
@@ -736,11 +720,8 @@ fn run_table(ev: &mut Ev, model: &mut TModel, srv: &mut ImplServer, program: &Pr
                     match srv.rel(a, b, any) {
                         Err(d) => {
                             ev.hit(&format!("{opname}:impl-does-not-return-confirmed-in-child"));
-                            let sig = if has_higher_order(&tbl, &[a, b]) && reach_has_cycle(&tbl, &[a, b]) {
-                                "compat=callable-arm-no-assumption-nontermination".to_string()
-                            } else {
-                                format!("nontermination:check_type_relation {}-vs-{}", tbl.kind(a), tbl.kind(b))
-                            };
+                            // (the callable-arm loop R4 was repaired by 30aca33)
+                            let sig = format!("nontermination:check_type_relation {}-vs-{}", tbl.kind(a), tbl.kind(b));
                             report(ev, &sig,
                                 &format!("{opname}({}, {}) does not return ({}; the model runs out of fuel)", tbl.show(a), tbl.show(b), d.text()),
                                 replay_json(&tbl, &[a, b], json!({"op": opname, "impl": d.text(), "model": "fuel-out"})), true);
@@ -1122,6 +1103,37 @@ fn run_corpus(ev: &mut Ev, model: &mut TModel, srv: &mut ImplServer) {
         for c in j["checks"].as_array().cloned().unwrap_or_default() {
             let op = c["op"].as_str().unwrap_or("");
             let (a, b) = (c["a"].as_u64().unwrap_or(0) as usize, c["b"].as_u64().unwrap_or(0) as usize);
+            if op == "intersect" || op == "complement" {
+                // narrowing regression: the result, rendered canonically, must be the expected term
+                let want = c["expect_canon"].as_str().unwrap_or("");
+                ev.case(&(f.to_string_lossy().to_string(), op, a, b), true);
+                ev.hit("corpus-check");
+                let render = |l: &str| -> Option<String> {
+                    let xs = Sx::parse(l)?;
+                    let rid = xs.get(1)?.nat()?;
+                    let (nt, nu) = entries_of_sx(&xs, 2, &n2)?;
+                    let mut t2 = tbl.clone();
+                    t2.types.extend(nt);
+                    t2.tuples.extend(nu);
+                    Some(t2.canon(rid))
+                };
+                let got = match srv.request(&format!("N\t{op}\t{a}\t{b}"), 10) {
+                    Ok(l) => render(&l).unwrap_or(l),
+                    Err(d) => d.text().to_string(),
+                };
+                if got != want {
+                    report(ev, c["signature"].as_str().unwrap_or("corpus"),
+                        &format!("{}: {op}({}, {}) = {got}, expected {want}; {}", j["name"].as_str().unwrap_or(""), tbl.show(a), tbl.show(b), c["why"].as_str().unwrap_or("")),
+                        json!({"corpus": f.to_string_lossy(), "table": j["table"], "names": j["names"], "op": op, "a": a, "b": b, "impl": got, "witness": c["witness"]}), true);
+                }
+                let m = ask(model, &format!("({op} {a} {b})"));
+                let mgot = render(&m).unwrap_or(m);
+                if mgot != want {
+                    report(ev, &format!("corr=corpus {op}"), &format!("{}: model answers {mgot} on {op}({a}, {b}), expected {want}", j["name"].as_str().unwrap_or("")),
+                        json!({"broken": "model no longer reproduces the regression corpus", "corpus": f.to_string_lossy()}), false);
+                }
+                continue;
+            }
             let expect = c["expect"].as_bool().unwrap_or(false);
             let any = op == "overlap";
             let i = match srv.rel(a, b, any) {
